@@ -131,6 +131,37 @@ func hasStringMethod(t types.Type) bool {
 // constant arguments (format strings). Returns nil when no model applies.
 func (e *Engine) builtinSpec(fr *frame, fn *ssa.Function, args []Val, st *State, alive string) *Val {
 	vc := fr.vc
+	// generated protobuf getters of external message types: Get<Field>() returns the field (zero value
+	// for a nil receiver). This is the shape gogoproto/protoc-gen-go emit; taken as given.
+	if recv := fn.Signature.Recv(); recv != nil && len(fn.Blocks) == 0 && strings.HasPrefix(fn.Name(), "Get") && fn.Signature.Params().Len() == 0 && fn.Signature.Results().Len() == 1 && len(args) == 1 {
+		rt := recv.Type()
+		isPtr := false
+		if p, ok := rt.(*types.Pointer); ok {
+			rt = p.Elem()
+			isPtr = true
+		}
+		if si := e.types.structInfoOf(rt); si != nil && !inRepo(pkgOfType(rt)) {
+			fname := strings.TrimPrefix(fn.Name(), "Get")
+			for i, f := range si.fields {
+				if f.name == fname && types.Identical(f.typ, fn.Signature.Results().At(0).Type()) {
+					vc.usedSpecs["generated protobuf getters of external messages return the field (nil-safe) [engine built-in]"] = true
+					var r Val
+					if isPtr {
+						if args[0].ip != nil {
+							np := *args[0].ip
+							np.path = append(append([]pathStep{}, args[0].ip.path...), pathStep{si, i})
+							r = Val{t: vc.readLoc(st, &np)}
+						} else {
+							r = Val{t: "(ite (= " + args[0].t + " 0) " + e.types.zero(f.typ) + " " + vc.readField(st, args[0].t, si, i) + ")"}
+						}
+					} else {
+						r = Val{t: "(" + accessor(si, i) + " " + args[0].t + ")"}
+					}
+					return &r
+				}
+			}
+		}
+	}
 	switch fn.String() {
 	case "fmt.Sprintf":
 		if len(fr.curCallArgs) == 2 {
